@@ -41,6 +41,8 @@ class NetExecutor(TraceExecutor):
         super().__init__(name=name, outcomes=outcomes, **kw)
         self.network_stack = RecStack()
         self.deliveries: List[Callable] = []
+        self.responders: Optional[List[Callable]] = None     # per request instruction: t -> list of delivery callables (see _execute_command)
+        self._request_sites: dict = {}
         self.delivered: List[tuple] = []
         self.waits = 0
 
@@ -92,6 +94,16 @@ class NetExecutor(TraceExecutor):
 
     def _execute_command(self, subroutine_id, command):
         yield from super()._execute_command(subroutine_id, command)
+        if self.responders is not None and command.mnemonic in ("create_epr", "recv_epr"):
+            # answers are produced when (and every time) the request instruction runs: the k-th distinct request instruction, in order
+            # of first execution, belongs to the k-th responder; t counts how often that instruction has run (retries)
+            site = (subroutine_id, id(command))
+            if site not in self._request_sites:
+                self._request_sites[site] = [len(self._request_sites), 0]
+            idx, t = self._request_sites[site]
+            self._request_sites[site][1] += 1
+            if idx < len(self.responders):
+                self.deliveries.extend(self.responders[idx](t))
         if self.eager and command.mnemonic in ("create_epr", "recv_epr"):
             # answer every request that is outstanding now; responses queued for requests not issued yet (a retry) stay queued
             while self.deliveries and self.undelivered_pairs() > 0:
